@@ -40,7 +40,9 @@ def open_verdict(chain):
     writes = d.get("write") == L(True) or d.get("read_write") == L(True)
     if not writes:
         return None     # read-only open
-    if d.get("truncate") == L(True) or d.get("create_new") == L(True):
+    if d.get("create_new") == L(True):
+        return "opens with create_new(true): a second run onto the same path fails and leaves the earlier result in place"
+    if d.get("truncate") == L(True):
         return None
     return "opens for writing without truncate(true): a longer file left by an earlier run keeps its tail"
 
@@ -130,6 +132,8 @@ def rest_rules(ctx):
     d = dep(ctx, "C17", "C07")
     if fcc is not None and fcn is not None:
         c07.chunk_rule(d, fcn, fcc)
+    if fcc is not None:
+        c07.routing_rule(d, fcc)            # every chunk pass counts into fresh tables: the chunk split is scheduling-dependent
     if fcm is not None:
         c07.merge_rule(d, fcm)
         c07.delete_rule(d, fcm)
